@@ -35,8 +35,8 @@ LANGS = ['java', 'kotlin', 'groovy', 'scala']
 HERE = os.path.dirname(os.path.dirname(os.path.abspath(__file__)))
 
 # fixed base seed lists (VERIF_SEED only adds the random histories and a few extra seeds)
-QUICK_SEEDS = [0, 1, 4, 11, 12, 13]      # six seeds whose twelve programs translate fast enough for the quick tier
-THOROUGH_SEEDS = list(range(0, 40))
+QUICK_SEEDS = [0, 1, 4, 11, 12, 13, 19, 23]      # eight seeds whose twelve programs translate fast enough for the quick tier
+THOROUGH_SEEDS = list(range(0, 36))
 STAGES = ['generated', 'erased', 'overwritten']
 
 
@@ -261,7 +261,9 @@ def hand_built(env, lang):
     main = ast.FunctionDeclaration('main', [], Void, ast.Block([
         ast.VariableDeclaration('n', ast.IntegerConstant(1, Int), is_final=True, var_type=Int)]), FUN)
     out.append(('bounded-type-parameters-through-superclass', _program(env, lang, [lim, a_cls, b_cls, sam, main])))
-    return out
+    # the program that widens translator state the most (function arities 4..6) is deliberately not the first one:
+    # the references of the others are then taken before any translator has seen it
+    return [out[1], out[0]] + out[2:]
 
 
 # ---------------------------------------------------------------------------------------------------------------
@@ -308,12 +310,14 @@ def struct_diff(x, y, path='program', seen=None, depth=0):
     if isinstance(x, dict):
         if len(x) != len(y):
             return '%s: %d keys -> %d keys' % (path, len(x), len(y))
-        for i, (u, v) in enumerate(zip(list(x), list(y))):       # insertion order is part of the state
+        # pairs are taken from items(): keys may be objects whose hash changed since insertion (mutable type
+        # parameters), so a lookup x[key] is not reliable; insertion order is part of the state
+        for i, ((u, xv), (v, yv)) in enumerate(zip(list(x.items()), list(y.items()))):
             label = repr(u) if isinstance(u, (str, int, tuple)) else '<key %d: %s>' % (i, type(u).__name__)
             d = struct_diff(u, v, '%s.key(%s)' % (path, label), seen, depth + 1)
             if d:
                 return d
-            d = struct_diff(x[u], y[v], '%s[%s]' % (path, label), seen, depth + 1)
+            d = struct_diff(xv, yv, '%s[%s]' % (path, label), seen, depth + 1)
             if d:
                 return d
         return None
@@ -415,7 +419,9 @@ class Checker:
             if b == before:
                 return
             state[0] = b
-            d = struct_diff(pickle.loads(before), prog)
+            # like is compared with like: both states go through the same pickle round trip (a live dictionary
+            # keyed by objects whose hash changed after insertion does not survive a round trip unchanged)
+            d = struct_diff(pickle.loads(before), pickle.loads(b))
             exp = 'pickle.dumps(program) identical before and after (%d bytes)' % len(before)
             if d:
                 self.report('program-unchanged:structure', ident(tl, cfg), after=after, expected=exp,
